@@ -100,6 +100,31 @@ pub fn structured_payloads() -> Vec<Vec<u8>> {
     v
 }
 
+/// Chunks that start like a known configuration block (family and id of each of the 11 sign types) and then differ.
+pub fn config_lookalikes() -> Vec<Vec<u8>> {
+    let mut variants: Vec<Vec<u8>> = vec![];
+    for t in TYPES {
+        let base = t.to_bytes().to_vec();
+        variants.push(base.clone());
+        for pos in [2usize, 4, 7, 15] {
+            let mut v = base.clone();
+            v[pos] ^= 0x5A;
+            variants.push(v);
+        }
+        let mut v = base.clone();
+        for b in v.iter_mut().skip(2) {
+            *b = 0;
+        }
+        variants.push(v);
+        let mut v = base.clone();
+        v.push(0);
+        variants.push(v);
+        variants.push(base[..15].to_vec());
+        variants.push(base[..2].to_vec());
+    }
+    variants
+}
+
 pub fn random_len(rng: &mut Rng) -> usize {
     match rng.below(10) {
         0 => 0,
@@ -155,6 +180,9 @@ pub fn indep_enc(a: u16, t: u8, d: &[u8]) -> Vec<u8> {
 }
 
 fn c01(thorough: bool, rng: &mut Rng, out: &mut Out) {
+    if thorough {
+        soak("C01", thorough, out);
+    }
     out.rule = "data N for every N in 0..=300 (owned and borrowed); for every seed frame (address x type grid, boundary lengths x patterns, random frames, uniform / counting payloads of every length 0..=255, every byte value alone / doubled / as a 16-byte chunk): to_bytes, to_bytes_with_newline, from_bytes of both encodings; non-trivial = a frame case (valid frame through encoder or decoder) or a data case at the 255/256 boundary; distinct = distinct case line".into();
     out.exhaustive_note = "data lengths 0..=300 and the 10-address x 256-type grid are enumerated completely; data contents are sampled".into();
     for n in 0..=300usize {
@@ -179,6 +207,24 @@ fn c01(thorough: bool, rng: &mut Rng, out: &mut Out) {
         let want = format!("err toolong 255 {}", n);
         if out.impls[i] != want {
             out.fail(i, format!("C01 Data::try_new({} bytes) gave '{}', expected '{}'", n, out.impls[i], want));
+        }
+    }
+    // other ways into a data block: the array conversions (exist for 0..=4 bytes on the pinned tree); should one
+    // exist for a larger size, what it builds must still be a legal block
+    for n in [0usize, 1, 4, 5, 16, 255, 256] {
+        let i = out.case(format!("datafrom {}", n), true);
+        out.stat("data.array-conversion-probe");
+        if out.impls[i] != "fits" {
+            let got = out.impls[i].clone();
+            out.fail(i, format!("C01 Data::from(&[u8; {}]) exists and builds an illegal data block: {}", n, got));
+        }
+    }
+    for way in ["deref-cow", "deref-vec", "as-mut-vec", "extend"] {
+        let i = out.case(format!("datagrow {}", way), true);
+        out.stat("data.mutable-access-probe");
+        if out.impls[i] != "fits" {
+            let got = out.impls[i].clone();
+            out.fail(i, format!("C01 a validated 255-byte data block can be grown afterwards ({}): {}", way, got));
         }
     }
     let mut frames = seed_frames(thorough, rng);
@@ -333,6 +379,33 @@ fn c03(thorough: bool, rng: &mut Rng, out: &mut Out) {
     for s in &all {
         let _ = dec_case(out, s, false, "C03");
     }
+    // (i') lines whose numeric bytes have the largest (and smallest) possible sums: 255 data bytes of FF under an
+    // all-ones header add up to 66 045 — past 16 bits — so a checksum accumulated in anything but a wrapping byte shows;
+    // each as a correct line (upper case, lower case, with CRLF), with a checksum off by one, with a wrong length field
+    for len in [0usize, 1, 2, 16, 128, 253, 254, 255] {
+        for (a, t) in [(0xFFFFu16, 0xFFu8), (0x01FF, 0xFF), (0xFF00, 0x00), (0x0000, 0x00), (0xFFFF, 0x00)] {
+            for fill in [0xFFu8, 0xFE, 0x00, 0x80] {
+                let mut d = vec![fill; len];
+                if len > 2 && fill == 0xFE {
+                    d[len / 2] = 0xFF;
+                }
+                let good = indep_enc(a, t, &d);
+                out.stat("dec.extreme-byte-sum");
+                let _ = dec_case(out, &good, true, "C03");
+                let _ = dec_case(out, &good.to_ascii_lowercase(), true, "C03");
+                let mut nl = good.clone();
+                nl.extend_from_slice(b"\r\n");
+                let _ = dec_case(out, &nl, true, "C03");
+                let mut bad = good.clone();
+                let k = bad.len() - 1;
+                bad[k] = if bad[k] == b'0' { b'1' } else { b'0' };
+                let _ = dec_case(out, &bad, true, "C03");
+                let mut wl = good.clone();
+                wl[2] = if wl[2] == b'0' { b'1' } else { b'0' };
+                let _ = dec_case(out, &wl, true, "C03");
+            }
+        }
+    }
     // (ii) splice short strings into seeds
     let seeds: Vec<Vec<u8>> = vec![
         indep_enc(0x7F, 2, &[0xFF]),
@@ -389,18 +462,41 @@ fn c03(thorough: bool, rng: &mut Rng, out: &mut Out) {
         "\u{FF21}", "\u{FF26}", "\u{FF41}", "\u{FF46}", "\u{212A}", "\u{017F}", "\u{FF1A}", "\u{00A0}", "\u{0085}", "\u{2028}", "\u{2029}", "\u{3000}",
         "\u{FEFF}", "\u{00B2}", "\u{2460}",
     ];
+    // … plus every non-ASCII character whose Unicode upper- or lower-casing is made of ASCII hex digits, colons or
+    // line terminators only (found by scanning all scalar values: ligatures such as U+FB00 "ff" -> "FF"): a decoder
+    // that folds case with the Unicode tables before validating reads them as digits
+    let mut lookalikes: Vec<String> = LOOKALIKES.iter().map(|s| s.to_string()).collect();
+    let n_fixed = lookalikes.len();
+    for cp in 0x80u32..0x11_0000 {
+        if let Some(c) = char::from_u32(cp) {
+            for folded in [c.to_uppercase().collect::<String>(), c.to_lowercase().collect::<String>()] {
+                if folded.chars().all(|f| f.is_ascii_hexdigit() || f == ':' || f == '\r' || f == '\n') && !lookalikes.contains(&c.to_string()) {
+                    lookalikes.push(c.to_string());
+                }
+            }
+        }
+    }
+    out.stat(&format!("lookalike.case-folding-chars.{}", lookalikes.len() - n_fixed));
     for seed in &seeds {
         for nl in [false, true] {
             let mut base = seed.clone();
             if nl {
                 base.extend_from_slice(b"\r\n");
             }
-            for (li, la) in LOOKALIKES.iter().enumerate() {
+            for (li, la) in lookalikes.iter().enumerate() {
                 if !thorough && li % 2 == 1 && li < 16 {
                     continue;
                 }
                 let la = la.as_bytes();
                 for pos in 0..=base.len() {
+                    // two adjacent bytes replaced by ONE look-alike (a character that folds to two digits)
+                    if pos + 1 < base.len() {
+                        let mut r = base[..pos].to_vec();
+                        r.extend_from_slice(la);
+                        r.extend_from_slice(&base[pos + 2..]);
+                        out.stat("lookalike.subst2to1");
+                        let _ = dec_case(out, &r, true, "C03");
+                    }
                     // substitution of one byte, of two adjacent bytes, and insertion
                     if pos < base.len() {
                         let mut r = base[..pos].to_vec();
@@ -830,6 +926,16 @@ fn c04(thorough: bool, rng: &mut Rng, out: &mut Out) {
             f2m_case(out, 0x10, ty, &d);
         }
     }
+    // 16-byte chunks that start like a known configuration block (family and id of each of the 11 sign types) but
+    // differ from it afterwards, at offset 0 and elsewhere: data is opaque, whatever it resembles
+    for v in config_lookalikes() {
+        for a in [0u16, 0x10, 0xFFFF] {
+            for ty in [0u8, 1, 0x42] {
+                out.stat("f2m.config-lookalike");
+                f2m_case(out, a, ty, &v);
+            }
+        }
+    }
     // recognised codes over the address range
     let mut codes: Vec<(u8, Vec<u8>)> = vec![(1, vec![]), (2, vec![0xFF]), (2, vec![0x00]), (2, vec![0x55]), (6, vec![0x00])];
     for c in STATE_CODES {
@@ -901,6 +1007,11 @@ pub fn specific_messages(thorough: bool, rng: &mut Rng) -> Vec<Message<'static>>
             v.push(Message::SendData(Offset(64), Data::try_new(z).unwrap()));
         }
     }
+    for d in config_lookalikes() {
+        for off in [0u16, 0x10] {
+            v.push(Message::SendData(Offset(off), Data::try_new(d.clone()).unwrap()));
+        }
+    }
     // payloads that look like the protocol itself (a wire line inside the data, terminators, start codes)
     for d in structured_payloads() {
         for off in [0u16, 0x10, 0xFFF0] {
@@ -916,7 +1027,19 @@ pub fn specific_messages(thorough: bool, rng: &mut Rng) -> Vec<Message<'static>>
     v
 }
 
+/// More than 2^32 bytes encoded on one thread (8.3 million maximum-size frames, a few seconds), then one more round trip.
+pub fn soak(prop: &str, _thorough: bool, out: &mut Out) {
+    let count: u64 = 8_300_000;
+    let i = out.case(format!("soak enc {}", count), true);
+    out.stat("codec.soak");
+    if out.impls[i] != format!("ok {}", count * 521) {
+        let got = out.impls[i].clone();
+        out.fail(i, format!("{} after encoding {} maximum-size frames on one thread the codec gave '{}'", prop, count, got));
+    }
+}
+
 fn c05(thorough: bool, rng: &mut Rng, out: &mut Out) {
+    soak("C05", thorough, out);
     out.rule = "every specific message kind x addresses/offsets/counts (boundaries + strides quick, all 65536 for the address-only kinds thorough) x 13 states x 6 operations x data blocks of every length 0..=255; each goes message -> frame -> wire -> frame -> message; non-trivial = every case (all are specific messages); distinct = distinct case line".into();
     out.exhaustive_note = "data lengths 0..=255, all states, all operations enumerated completely; addresses complete only in thorough for address-only kinds".into();
     let mut seen: HashMap<Vec<u8>, String> = HashMap::new();
@@ -1084,6 +1207,31 @@ fn c19(thorough: bool, rng: &mut Rng, out: &mut Out) {
             }
         }
     }
+    // two configuration blocks in ONE configuration phase (the second replaces the first; the count is 2): every
+    // ordered pair of sign types, then a page of the second type — the sign must be exactly a sign of the second type
+    for (i1, t1) in TYPES.iter().enumerate() {
+        for (i2, t2) in TYPES.iter().enumerate() {
+            if !thorough && (i1 * 11 + i2) % 3 != 0 && i1 != i2 {
+                continue;
+            }
+            let (w, h) = t2.dimensions();
+            let page = Page::new(PageId(4), w, h);
+            let mut line = format!("vbus M,0005 RO,0005,0 SD,0000,{} SD,0000,{} CS,0002 QS,0005 RO,0005,1", to_hex(t1.to_bytes()), to_hex(t2.to_bytes()));
+            let mut n = 0;
+            for (ci, c) in page.as_bytes().chunks(16).enumerate() {
+                line.push_str(&format!(" SD,{:04X},{}", ci * 16, to_hex(c)));
+                n += 1;
+            }
+            line.push_str(&format!(" CS,{:04X} QS,0005", n));
+            let v = out.case(line, true);
+            out.stat("vsign.two-blocks-one-phase");
+            let last = out.impls[v].rsplit(' ').next().unwrap_or("").to_string();
+            // final observation: state PixelsReceived, type i2, one page
+            if !last.contains(&format!("|{}/{}/1/", state_idx(flipdot_core::State::PixelsReceived), i2)) {
+                out.fail(v, format!("C19 configured with a {:?} block and then a {:?} block in the same phase, the virtual sign does not hold one {}x{} page of the second type: {}", t1, t2, w, h, last));
+            }
+        }
+    }
     // lengths that are 16 only modulo a power of two, and other long inputs: a length kept in a narrow
     // integer must not make them look like a 16-byte block (each with a supported and an unsupported header)
     for len in [255usize, 256, 257, 271, 272, 273, 528, 4112, 65535, 65536, 65552, 65553] {
@@ -1098,6 +1246,17 @@ fn c19(thorough: bool, rng: &mut Rng, out: &mut Out) {
             }
             let i = out.case(format!("type frombytes {}", to_hex(&d)), false);
             out.stat("frombytes.long-input");
+            if out.impls[i] != format!("err wronglen 16 {}", len) {
+                let shown = out.impls[i].clone();
+                out.fail(i, format!("C19 from_bytes accepted / misreported a {}-byte string: {}", len, shown));
+            }
+        }
+    }
+    // … and lengths that are 16 only modulo 2^32 (zeroed allocations, never touched beyond the header)
+    for len in [(1usize << 32) + 16, (1 << 32) + 15, (1 << 32), (1 << 33) + 16, (1 << 24) + 16] {
+        for known in [1, 0] {
+            let i = out.case(format!("typefromlen {} {}", len, known), false);
+            out.stat("frombytes.length-16-mod-2^32");
             if out.impls[i] != format!("err wronglen 16 {}", len) {
                 let shown = out.impls[i].clone();
                 out.fail(i, format!("C19 from_bytes accepted / misreported a {}-byte string: {}", len, shown));
@@ -1172,6 +1331,7 @@ fn expect_total(w: u32, h: u32) -> usize {
 
 fn c07(thorough: bool, rng: &mut Rng, out: &mut Out) {
     c07_huge(out);
+    giant_pages("C07", thorough, out);
     out.rule = "for every size in the box (w 0..=9 x h 0..=33 thorough; 0..=6 x 0..=18 + corners quick), the 11 sign sizes and 3 large sizes: new-page bytes for several ids, one set_pixel per pixel (all pixels for small pages, sampled for large) compared with the stated byte/bit position, and from_bytes at lengths total+-{0,1,15,16}; non-trivial = a case on a page with at least one pixel; distinct = distinct case line".into();
     out.exhaustive_note = "the size box is enumerated completely; ids 0..=255 complete on one size; pixels complete for pages up to 300 pixels".into();
     for id in 0..=255u8 {
@@ -1253,7 +1413,29 @@ fn c07(thorough: bool, rng: &mut Rng, out: &mut Out) {
 
 /// Sizes whose byte count does not fit 32 bits: `from_bytes` must still size them in `usize` and reject a
 /// small buffer with the exact expected count (no wrap-around, no overflow panic).
+/// Small pages over buffers whose length equals the padded size only modulo 2^8 / 2^16 / 2^32.
+fn c07_wrapped_lengths(out: &mut Out) {
+    for (w, h) in [(8u32, 8u32), (90, 7), (1, 1), (0, 0), (255, 255)] {
+        let total = expect_total(w, h);
+        for extra in [1usize << 8, 1 << 16, 1 << 24, 1 << 32, (1 << 32) + 16, 1 << 33] {
+            let len = total + extra;
+            let i = out.case(format!("pagefromlen {} {} {}", w, h, len), true);
+            out.stat("from.length-equal-modulo-a-power-of-two");
+            let want = format!("err wronglen {} {} {} {}", w, h, total, len);
+            if out.impls[i] != want {
+                let got = out.impls[i].clone();
+                out.fail(i, format!("C07 from_bytes({}x{}, {} bytes; the padded size is {}) gave '{}'", w, h, len, total, got));
+            }
+        }
+        let i = out.case(format!("pagefromlen {} {} {}", w, h, total), true);
+        if out.impls[i] != "ok" {
+            out.fail(i, format!("C07 from_bytes({}x{}) rejected a zeroed buffer of the padded size {}", w, h, total));
+        }
+    }
+}
+
 fn c07_huge(out: &mut Out) {
+    c07_wrapped_lengths(out);
     let m = u32::MAX;
     for (w, h) in [(65536u32, 524288u32), (65537, 524288), (65535, 524288), (m, 9), (m, 8), (m, m), (m, 1), (1 << 31, 16), (1 << 28, 128), (3, m), (0, m), (m, 0)] {
         let bpc = (h as u128 + 7) / 8;
@@ -1275,7 +1457,27 @@ fn c07_huge(out: &mut Out) {
     }
 }
 
+/// Pages whose pixel data does not fit 32 bits (width x bytes-per-column > 2^32): one set_pixel past the 4 GiB
+/// mark and a few before it, observed at the true byte position and its likely aliases.
+fn giant_pages(prop: &str, thorough: bool, out: &mut Out) {
+    let mut cases: Vec<(u32, u32, u32, u32)> = vec![(65537, 524288, 65536, 11), (65537, 524288, 65535, 524287), (65537, 524288, 1, 8), (70000, 524281, 69999, 524280)];
+    if thorough {
+        cases.extend_from_slice(&[(65537, 524288, 0, 0), (131073, 262144, 131072, 17), (4097, 8388608, 4096, 8388607), (65536, 524296, 65535, 524295)]);
+    }
+    for (w, h, x, y) in cases {
+        let i = out.case(format!("bigpage {} {} {} {}", w, h, x, y), true);
+        out.stat("page.over-4GiB");
+        let bpc = (h as u128 + 7) / 8;
+        let want = format!("{}:{:02X} g=1", 4 + x as u128 * bpc + (y / 8) as u128, 1u8 << (y % 8));
+        if out.impls[i] != want {
+            let got = out.impls[i].clone();
+            out.fail(i, format!("{} set_pixel({},{}) on a {}x{} page (over 4 GiB of pixel data): observed '{}', the layout prescribes '{}'", prop, x, y, w, h, got, want));
+        }
+    }
+}
+
 fn c06(thorough: bool, rng: &mut Rng, out: &mut Out) {
+    giant_pages("C06", thorough, out);
     out.rule = "for every size in the box + 11 sign sizes + large sizes: out-of-bounds get/set at (w,0),(0,h),(w,h),(w+1,0),(0,h+1),(u32::MAX,*) one per line; every in-bounds pixel get on small pages; random sequences of 10..60 set/clear/set-all/get operations on fresh pages and on pages over borrowed random bytes, checked against a Vec<Vec<bool>> shadow plus id / padding / length preservation; non-trivial = an operation sequence that performs at least one in-bounds write, or an out-of-bounds probe on a page with pixels; distinct = distinct case line".into();
     out.exhaustive_note = "sizes and the out-of-bounds probe set are enumerated completely; operation sequences are sampled".into();
     for (w, h) in page_sizes(thorough) {
